@@ -339,7 +339,13 @@ fn spell(kind: &str, arity: usize, pos: usize, spelling: usize) -> &'static str 
         "Gate" => GATE_LIKE_N[(n * 5 + spelling) % GATE_LIKE_N.len()],
         "ShiftPhase" => UPDATES[n % UPDATES.len()],
         "SwapPhases" => "SwapPhases",
-        "Label" => "Label",
+        // one target-carrying model class: every position is a LABEL, a JUMP and a conditional jump once
+        // over the three spellings (so fixed names also occur only as jump targets, without a LABEL)
+        "Label" => match n % 3 {
+            0 => "Label",
+            1 => "Jump",
+            _ => ["JumpWhen", "JumpUnless"][pos % 2],
+        },
         "Jump" => "Jump",
         "JumpWhen" => ["JumpWhen", "JumpUnless"][n % 2],
         other => panic!("unknown model class {other}"),
@@ -406,8 +412,143 @@ pub fn replay(_ctx: &Ctx, case: &Value) -> Outcome {
 
 // ------------------------------------------------------------------------------------------- drive
 
-const BASES: [&str; 4] = ["a", "a", "b", "loop"];
-const FIXED_LABELS: [&str; 7] = ["a_0", "a_1", "b_0", "loop_0", "x", "a", "a_2"];
+/// label placeholders of the driver: id -> base (several placeholders share a base)
+const BASES: [&str; 7] = ["a", "a", "a", "loop", "loop", "loop", "b"];
+/// fixed labels / jump targets of the shape the default resolver generates, for a base: holes in the suffix
+/// sequence, two-digit and zero-padded suffixes, the base itself, a longer name starting with the base
+fn shaped_labels(base: &str) -> Vec<String> {
+    let mut v: Vec<String> = (0..=4).map(|k| format!("{base}_{k}")).collect();
+    v.extend([format!("{base}_10"), format!("{base}_00"), base.to_string(), format!("{base}x_0"), format!("{base}_"), "x".to_string()]);
+    v
+}
+const FRAME_KINDS: [&str; 9] =
+    ["Pulse", "Capture", "RawCapture", "ShiftPhase", "SetFrequency", "SetPhase", "SetScale", "ShiftFrequency", "SwapPhases"];
+
+fn q_instr(rng: &mut impl Rng, kinds: &[&str], mut qs: Vec<Value>) -> Value {
+    let kind = *kinds.choose(rng).unwrap();
+    match kind {
+        "Measure" | "Reset" => qs.truncate(1),
+        "SwapPhases" if qs.len() < 2 => qs.push(qs[0].clone()),
+        _ => {}
+    }
+    json!({"k": kind, "qs": qs})
+}
+
+/// style "labels": a set of shaped fixed names (as LABELs, or only as jump targets) with gaps and extras and
+/// several placeholders sharing that base
+fn label_body(rng: &mut impl Rng, max_len: usize) -> Vec<Value> {
+    let base = *["a", "loop", "b"].choose(rng).unwrap();
+    let pool = shaped_labels(base);
+    let only_jumps = rng.gen_bool(0.3);
+    let mut fixed: Vec<Value> = vec![];
+    for name in &pool {
+        if rng.gen_bool(0.4) && fixed.len() + 2 < max_len {
+            let kind = if only_jumps { *["Jump", "JumpWhen", "JumpUnless"].choose(rng).unwrap() } else { *T_KINDS.choose(rng).unwrap() };
+            fixed.push(json!({"k": kind, "target": {"t": "fixed", "s": name}}));
+        }
+    }
+    let ids: Vec<u64> = (1..=BASES.len() as u64).filter(|id| BASES[(*id - 1) as usize] == base || rng.gen_bool(0.15)).collect();
+    let mut phs: Vec<Value> = vec![];
+    for id in &ids {
+        for _ in 0..rng.gen_range(1..=2) {
+            if fixed.len() + phs.len() < max_len {
+                phs.push(json!({"k": T_KINDS.choose(rng).unwrap(), "target": {"t": "ph", "id": id, "base": BASES[(*id - 1) as usize]}}));
+            }
+        }
+    }
+    let mut body = match rng.gen_range(0..3) {
+        0 => [fixed, phs].concat(),
+        1 => [phs, fixed].concat(),
+        _ => {
+            let mut b = [fixed, phs].concat();
+            b.shuffle(rng);
+            b
+        }
+    };
+    if rng.gen_bool(0.3) && body.len() < max_len {
+        body.insert(rng.gen_range(0..=body.len()), json!({"k": "Gate", "qs": [{"t": "fixed", "n": 0}]}));
+    }
+    body
+}
+
+/// style "qubits": fixed qubits with gaps - placed before / after / among the placeholders, in gate-like
+/// instructions of every kind or only inside frames - and up to 6 placeholders (more than there are gaps)
+fn qubit_body(rng: &mut impl Rng, max_len: usize) -> Vec<Value> {
+    let pool: [u64; 7] = [0, 2, 3, 7, 1, 4, 5];
+    let nfix = rng.gen_range(1..=5);
+    let fixed_set: Vec<u64> = pool.choose_multiple(rng, nfix).cloned().collect();
+    let frames_only = rng.gen_bool(0.35);
+    let all_q: Vec<&str> = GATE_LIKE_1.iter().chain(UPDATES.iter()).chain(["SwapPhases"].iter()).cloned().collect();
+    let carriers: Vec<&str> = if frames_only { FRAME_KINDS.to_vec() } else { all_q.clone() };
+    let mut fixed: Vec<Value> = vec![];
+    for n in &fixed_set {
+        let mut qs = vec![json!({"t": "fixed", "n": n})];
+        if rng.gen_bool(0.3) {
+            qs.push(json!({"t": "fixed", "n": fixed_set.choose(rng).unwrap()}));
+        }
+        fixed.push(q_instr(rng, &carriers, qs));
+    }
+    let nph = rng.gen_range(1..=6u64);
+    let mut phs: Vec<Value> = vec![];
+    for id in 1..=nph {
+        let mut qs = vec![json!({"t": "ph", "id": id})];
+        if rng.gen_bool(0.3) {
+            qs.push(json!({"t": "ph", "id": rng.gen_range(1..=nph)}));
+        }
+        phs.push(q_instr(rng, &all_q, qs));
+    }
+    let mut body = match rng.gen_range(0..3) {
+        0 => [fixed, phs].concat(),
+        1 => [phs, fixed].concat(),
+        _ => {
+            let mut b = [fixed, phs].concat();
+            b.shuffle(rng);
+            b
+        }
+    };
+    body.truncate(max_len.max(2));
+    body
+}
+
+fn mixed_body(rng: &mut impl Rng, len: usize, nqph: u64, ntph: u64) -> Vec<Value> {
+    let nfixed = rng.gen_range(1..=6u64);
+    let fixed_labels = shaped_labels(["a", "loop", "b"].choose(rng).unwrap());
+    let mut body: Vec<Value> = vec![];
+    for _ in 0..len {
+        if rng.gen_bool(0.3) {
+            let kind = T_KINDS.choose(rng).unwrap();
+            let target = if ntph > 0 && rng.gen_bool(0.55) {
+                let id = rng.gen_range(1..=ntph);
+                json!({"t": "ph", "id": id, "base": BASES[(id - 1) as usize]})
+            } else {
+                json!({"t": "fixed", "s": fixed_labels.choose(rng).unwrap()})
+            };
+            body.push(json!({"k": kind, "target": target}));
+        } else {
+            let all: Vec<&str> = GATE_LIKE_1.iter().chain(UPDATES.iter()).chain(["SwapPhases"].iter()).cloned().collect();
+            let kind = *all.choose(rng).unwrap();
+            let arity = match kind {
+                "Measure" | "Reset" => 1,
+                "SwapPhases" => rng.gen_range(2..=3),
+                _ => rng.gen_range(1..=3),
+            };
+            let mut qs: Vec<Value> = vec![];
+            while qs.len() < arity {
+                let q = match rng.gen_range(0..100) {
+                    0..=44 if nqph > 0 => json!({"t": "ph", "id": rng.gen_range(1..=nqph)}),
+                    45..=49 => json!({"t": "var", "s": "q"}),
+                    _ => {
+                        let n = [0u64, 2, 3, 7, 1, 4][rng.gen_range(0..nfixed) as usize];
+                        json!({"t": "fixed", "n": n})
+                    }
+                };
+                qs.push(q);
+            }
+            body.push(json!({"k": kind, "qs": qs}));
+        }
+    }
+    body
+}
 
 pub fn drive(ctx: &Ctx) -> Summary {
     let n = ctx.arg_u64("n", 100);
@@ -420,39 +561,14 @@ pub fn drive(ctx: &Ctx) -> Summary {
     for h in 0..n {
         let len = if h < 3 { h as usize } else { rng.gen_range(1..=max_len) };
         let nqph = rng.gen_range(0..=5u64);
-        let ntph = rng.gen_range(0..=4u64);
-        let nfixed = rng.gen_range(1..=6u64);
-        let mut body: Vec<Value> = vec![];
-        for _ in 0..len {
-            if rng.gen_bool(0.3) {
-                let kind = T_KINDS.choose(&mut rng).unwrap();
-                let target = if ntph > 0 && rng.gen_bool(0.55) {
-                    let id = rng.gen_range(1..=ntph);
-                    json!({"t": "ph", "id": id, "base": BASES[(id - 1) as usize]})
-                } else {
-                    json!({"t": "fixed", "s": FIXED_LABELS.choose(&mut rng).unwrap()})
-                };
-                body.push(json!({"k": kind, "target": target}));
-            } else {
-                let all: Vec<&str> = GATE_LIKE_1.iter().chain(UPDATES.iter()).chain(["SwapPhases"].iter()).cloned().collect();
-                let kind = *all.choose(&mut rng).unwrap();
-                let arity = match kind {
-                    "Measure" | "Reset" => 1,
-                    "SwapPhases" => rng.gen_range(2..=3),
-                    _ => rng.gen_range(1..=3),
-                };
-                let mut qs: Vec<Value> = vec![];
-                while qs.len() < arity {
-                    let q = match rng.gen_range(0..100) {
-                        0..=44 if nqph > 0 => json!({"t": "ph", "id": rng.gen_range(1..=nqph)}),
-                        45..=49 => json!({"t": "var", "s": "q"}),
-                        _ => json!({"t": "fixed", "n": rng.gen_range(0..nfixed)}),
-                    };
-                    qs.push(q);
-                }
-                body.push(json!({"k": kind, "qs": qs}));
-            }
-        }
+        let ntph = rng.gen_range(0..=BASES.len() as u64);
+        let body: Vec<Value> = match h % 3 {
+            _ if h < 3 => mixed_body(&mut rng, len, nqph, ntph),
+            0 => mixed_body(&mut rng, len, nqph, ntph),
+            1 => label_body(&mut rng, max_len),
+            _ => qubit_body(&mut rng, max_len),
+        };
+        let (nqph, ntph) = (6u64, BASES.len() as u64);
         let custom = rng.gen_bool(0.3);
         let mode = if custom { "custom" } else { "default" };
         let mut tmap = BTreeMap::new();
